@@ -25,6 +25,8 @@ def confirm(tag):
         cmdline = None
         for ln in demo_cmd.splitlines():
             ln = ln.strip().strip("`")
+            if "go test" in ln and not ln.startswith("#"):
+                ln = ln[ln.index("go test"):]
             if ln.startswith("go test") or ln.startswith("go run"):
                 cmdline = ln
                 break
